@@ -58,6 +58,14 @@ def dstepLine (s : DState) (toks : List String) : DState × String :=
       (s, if k.length == w.length && w.length == sn.length && Conc.serialOk i (Conc.zipG k w sn) f then "accept"
           else "reject no-serial-order-explains-the-observations")
     | _, _, _, _, _ => (s, "bad-op")
+  | ["conc", "rgate", init, final, kinds, ws, ss, qget, qhas] =>
+    match init.toNat?, final.toNat?, parseCsv kinds, parseCsv ws, parseCsv ss, qget.toNat?, qhas.toNat? with
+    | some i, some f, some k, some w, some sn, some qg, some qh =>
+      (s, if !(k.length == w.length && w.length == sn.length && Conc.serialOk i (Conc.zipG k w sn) f) then
+            "reject no-serial-order-explains-the-observations"
+          else if !Conc.quiescentOk [qg, qh] [f, if f = 0 then 0 else 1] then "reject cache-differs-from-store-at-quiescence"
+          else "accept")
+    | _, _, _, _, _, _, _ => (s, "bad-op")
   | ["conc", "wide", n, gets] =>
     match n.toNat?, parseCsv gets with
     | some n, some g => (s, if Conc.wideOk n g then "accept" else "reject reader-saw-unwritten-value")
